@@ -46,7 +46,14 @@ def function_table(tree):
             classes[n.name] = (n, bases)
             for m in n.body:
                 if isinstance(m, ast.FunctionDef):
-                    funcs["%s.%s" % (n.name, m.name)] = m
+                    q = "%s.%s" % (n.name, m.name)
+                    if q in funcs:
+                        # a property's getter and setter share a name: keep both (the passes that rewrite every function must see both)
+                        k = 2
+                        while "%s#%d" % (q, k) in funcs:
+                            k += 1
+                        q = "%s#%d" % (q, k)
+                    funcs[q] = m
         elif isinstance(n, ast.Try):
             for m in n.body:
                 if isinstance(m, ast.FunctionDef):
@@ -173,7 +180,7 @@ class Inliner:
         self.kept = []  # helpers that could not be inlined
         self.helpers = {}
         for q, fn in self.funcs.items():
-            if q in pinned:
+            if q.split("#")[0] in pinned:
                 continue
             name = q.split(".")[-1]
             if not name.startswith("_") or (name.startswith("__") and name.endswith("__")):
@@ -201,10 +208,56 @@ class Inliner:
                 if nm == fn.name:
                     return None  # recursive
         body = [s for s in fn.body if not (isinstance(s, ast.Expr) and isinstance(s.value, ast.Constant) and isinstance(s.value.value, str))]
+        body = self.predicate_form(fn, body)
         body = single_exit(body)
         if body is None or not _tail_only(body):
             return None
         return body
+
+    def predicate_form(self, fn, body):
+        """`if c: return True` / `return False` (either polarity, with or without else) is the predicate c.  Where every call
+        of the helper stands in a truth-test position the helper is `return c` for the analysis (the result is only ever asked
+        for its truth value)."""
+        def const(st, v):
+            return isinstance(st, ast.Return) and isinstance(st.value, ast.Constant) and st.value.value is v
+
+        test = pos = None
+        if len(body) == 2 and isinstance(body[0], ast.If) and len(body[0].body) == 1 and not body[0].orelse:
+            first, second = body[0].body[0], body[1]
+        elif len(body) == 1 and isinstance(body[0], ast.If) and len(body[0].body) == 1 and len(body[0].orelse) == 1:
+            first, second = body[0].body[0], body[0].orelse[0]
+        else:
+            return body
+        if const(first, True) and const(second, False):
+            pos = True
+        elif const(first, False) and const(second, True):
+            pos = False
+        else:
+            return body
+        test = body[0].test
+        # every reference to the helper is the callee of a call in a truth-test position
+        calls = []
+        if not hasattr(self, "_parents"):
+            self._parents = {}
+            for n in ast.walk(self.tree):
+                for c in ast.iter_child_nodes(n):
+                    self._parents[id(c)] = n
+        par = self._parents
+        for n in ast.walk(self.tree):
+            if isinstance(n, (ast.Name, ast.Attribute)) and (n.id if isinstance(n, ast.Name) else n.attr) == fn.name:
+                up = par.get(id(n))
+                if not (isinstance(up, ast.Call) and up.func is n):
+                    return body
+                calls.append(up)
+        for c in calls:
+            node = c
+            up = par.get(id(node))
+            while isinstance(up, (ast.BoolOp,)) or (isinstance(up, ast.UnaryOp) and isinstance(up.op, ast.Not)):
+                node, up = up, par.get(id(up))
+            if not (isinstance(up, (ast.If, ast.While, ast.IfExp)) and up.test is node):
+                return body
+        value = test if pos else ast.UnaryOp(op=ast.Not(), operand=test)
+        return [ast.copy_location(ast.Return(value=value), body[0])]
 
     # ------------------------------------------------------------- resolution
     def mro(self, cname, seen=None):
@@ -539,6 +592,27 @@ def _fold_inlined_result_aliases(fn):
                             del block[i]
                             changed = True
                             break
+                    # T1, T2 = (L1__k, L2__k): the helper returned a tuple of its locals
+                    if isinstance(st, ast.Assign) and len(st.targets) == 1 and isinstance(st.targets[0], ast.Tuple) and isinstance(st.value, ast.Tuple) \
+                            and len(st.targets[0].elts) == len(st.value.elts) and all(isinstance(t_, ast.Name) for t_ in st.targets[0].elts) \
+                            and all(isinstance(v_, ast.Name) and _re.search(r"__\d+$", v_.id) for v_ in st.value.elts):
+                        pairs = [(v_.id, t_.id) for t_, v_ in zip(st.targets[0].elts, st.value.elts)]
+                        firsts = [next((j for j, b in enumerate(block[:i]) if any(isinstance(n, ast.Name) and n.id == tmp_ for n in ast.walk(b))), None) for tmp_, _ in pairs]
+                        if all(f is not None for f in firsts) and len({p_[0] for p_ in pairs}) == len(pairs):
+                            between = block[min(firsts):i]
+                            tgts = {p_[1] for p_ in pairs}
+                            tmps = {p_[0] for p_ in pairs}
+                            clash = any(isinstance(n, ast.Name) and n.id in tgts for b in between for n in ast.walk(b))
+                            elsewhere = [n for n in ast.walk(fn) if isinstance(n, ast.Name) and n.id in tmps and not any(n is m for b in between + [st] for m in ast.walk(b))]
+                            if not clash and not elsewhere:
+                                ren = dict(pairs)
+                                for b in between:
+                                    for n in ast.walk(b):
+                                        if isinstance(n, ast.Name) and n.id in ren:
+                                            n.id = ren[n.id]
+                                del block[i]
+                                changed = True
+                                break
                     if not (isinstance(st, ast.Assign) and len(st.targets) == 1 and isinstance(st.targets[0], ast.Name) and isinstance(st.value, ast.Name)
                             and _re.search(r"__\d+$", st.value.id)):
                         continue
@@ -573,6 +647,8 @@ class _Unroller(ast.NodeTransformer):
         self.count = 0
 
     def _elements(self, it):
+        if isinstance(it, ast.Name) and it.id in getattr(self, "local_tables", {}):
+            it = self.local_tables[it.id]
         if isinstance(it, ast.Name) and it.id in self.tables:
             it = self.tables[it.id]
         if isinstance(it, (ast.Tuple, ast.List)) and 1 <= len(it.elts) <= 16:
@@ -633,8 +709,18 @@ class _Unroller(ast.NodeTransformer):
                                                                                           (isinstance(v.func, ast.Name) and v.func.id in ("list", "sorted")))):
                     lists.add(n.targets[0].id)
         self.lists = lists - {a.arg for a in node.args.args + node.args.kwonlyargs}
+        # local constant tables: a name bound once to a tuple display of constants / of tuples of constants
+        saved_tables = getattr(self, "local_tables", {})
+        lt = {}
+        const_row = lambda e: isinstance(e, ast.Constant) or (isinstance(e, ast.Tuple) and all(isinstance(x, (ast.Constant, ast.Name)) for x in e.elts))
+        for n in ast.walk(node):
+            if isinstance(n, ast.Assign) and len(n.targets) == 1 and isinstance(n.targets[0], ast.Name) and binds.get(n.targets[0].id) == 1 \
+                    and isinstance(n.value, ast.Tuple) and n.value.elts and all(const_row(e) for e in n.value.elts):
+                lt[n.targets[0].id] = n.value
+        self.local_tables = lt
         self.generic_visit(node)
         self.lists = saved
+        self.local_tables = saved_tables
         return node
 
     def visit_For(self, node):
@@ -852,6 +938,18 @@ class _NotFold(ast.NodeTransformer):
         return node
 
 
+    def visit_Compare(self, node):
+        # `local == CONSTANT_NAME` -> `CONSTANT_NAME == local` (the spelling of the reference tree; == and != between a local and
+        # a module-level string constant are symmetric)
+        self.generic_visit(node)
+        if len(node.ops) == 1 and isinstance(node.ops[0], (ast.Eq, ast.NotEq)) and isinstance(node.left, ast.Name) and isinstance(node.comparators[0], ast.Name):
+            l, r = node.left.id, node.comparators[0].id
+            if r.isupper() and "_" in r and not l.isupper() and r in getattr(self, "module_strings", ()):
+                self.count += 1
+                return ast.copy_location(ast.Compare(left=node.comparators[0], ops=node.ops, comparators=[node.left]), node)
+        return node
+
+
 def _side_effect_free(expr):
     for n in ast.walk(expr):
         if isinstance(n, (ast.Call, ast.Await, ast.Yield, ast.YieldFrom, ast.NamedExpr, ast.Lambda, ast.ListComp, ast.SetComp, ast.DictComp, ast.GeneratorExp)):
@@ -866,7 +964,7 @@ def inline_new_temporaries(tree, table):
     funcs, _ = function_table(tree)
     count = 0
     for q, fn in funcs.items():
-        known = table.get(q)
+        known = table.get(q.split("#")[0])
         if known is None:
             continue  # a new function: nothing to compare with
         stores = {}
@@ -967,8 +1065,11 @@ def _substitute_once(fn, name):
                             return True
                         if rebinding:
                             return False
-                        if attr_reads and any(isinstance(n, (ast.Call, ast.Assign, ast.AugAssign)) for n in ast.walk(later)):
-                            # attribute/subscript reads may be affected by intervening calls or stores
+                        if attr_reads and any(isinstance(n, ast.Call) or (isinstance(n, (ast.Assign, ast.AugAssign)) and
+                                                                          any(not isinstance(t_, ast.Name) for t_ in (n.targets if isinstance(n, ast.Assign) else [n.target])))
+                                              for n in ast.walk(later)):
+                            # attribute/subscript reads may be affected by intervening calls or by stores into objects
+                            # (binding another local cannot change what an attribute read yields)
                             return False
                     return False
     return False
@@ -1027,7 +1128,7 @@ def propagate_new_aliases(tree, table):
     funcs, _ = function_table(tree)
     count = 0
     for q, fn in funcs.items():
-        known = table.get(q)
+        known = table.get(q.split("#")[0])
         if known is None:
             continue
         for node in ast.walk(fn):
@@ -1125,6 +1226,8 @@ def normalise(tree):
     af = _AttrFold()
     af.visit(tree)
     nf = _NotFold()
+    nf.module_strings = {n.targets[0].id for n in tree.body if isinstance(n, ast.Assign) and len(n.targets) == 1 and isinstance(n.targets[0], ast.Name)
+                         and isinstance(n.value, ast.Constant) and isinstance(n.value.value, str)}
     nf.visit(tree)
     idx = index_loops_to_iteration(tree)
     rc = _RangeComp()
